@@ -5,6 +5,7 @@ pub mod common;
 pub mod e2e;
 pub mod pgen;
 pub mod refmodel;
+pub mod relgen;
 pub mod gsom;
 pub mod insert;
 pub mod interrupt;
